@@ -428,6 +428,7 @@ PLANS["C25"] = {
     "pre": lambda: driver_build(("rel", "tsan")),
     "flavours": ["rel", "tsan"],
     "jobs": lambda seed, tier: spread(seed, "C25", N(tier, 36, 400), ["QF_BOOL", "QF_UF", "QF_LRA", "QF_LIA", "QF_IDL", "QF_UFLRA"], "stop", max_k=N(tier, 25, 60)) +
+                               spread(seed, "C25n", N(tier, 16, 200), ["QF_BOOL", "QF_UF", "QF_LRA", "QF_BOOL"], "stop", max_k=N(tier, 60, 120), noinc=True, n_atoms=10, ratio=2.6) +
                                spread(seed, "C25i", N(tier, 16, 200), ["QF_LIA", "QF_UFLIA", "QF_LIA", "QF_ALIA"], "stop", max_k=N(tier, 60, 120), mode="integrality", ratio=0.7, nnum=4) +
                                spread(seed, "C25t", N(tier, 10, 150), ["QF_BOOL", "QF_LRA", "QF_UF", "QF_LIA"], "stop", max_k=2, threads=N(tier, 6, 15), flavour="tsan"),
     "mc": [{"module": "MC_Stop"}],
